@@ -206,6 +206,16 @@ partial def loop (h : IO.FS.Stream) (d : D) (lineNo : Nat) (pending : Option Out
       IO.println s!"PROPFAIL case={d.caseId} line={lineNo} op=[bytes create {hex}] impl={bitsS}"
       loop h { d with propfails := d.propfails + 1 } (lineNo+1) none
     else loop h d (lineNo+1) none
+  | ["by", "a", bitsS, fillS, "->", hex] =>
+    let unhex := fun (h : String) => if h == "-" then ([] : List Nat) else (List.range (h.length / 2)).map fun j => hexVal (h.toList.getD (2*j) '0') * 16 + hexVal (h.toList.getD (2*j+1) '0')
+    let out := unhex hex; let filler := unhex fillS
+    let chars := if bitsS == "-" then [] else bitsS.toList.reverse
+    let ok := 8 * out.length == chars.length && (List.range chars.length).all fun i => Sig.bytesBit out i == Sig.asDataBit chars filler i
+    let d := { d with ops := d.ops + 1, hist := bump d.hist s!"bytes:asData:{if chars.any (· == 'x') then (if chars.all (· == 'x') then "undef" else "partial") else "def"}" }
+    if !ok then
+      IO.println s!"PROPFAIL case={d.caseId} line={lineNo} op=[bytes asData state={bitsS} filler={fillS}] impl={hex}"
+      loop h { d with propfails := d.propfails + 1 } (lineNo+1) none
+    else loop h d (lineNo+1) none
   | ["by", "e", bitsS, hex, "->", r] =>
     -- operator==(state, bytes): true iff every bit of the state is defined and equals the corresponding bit of the byte array
     let bytes : List Nat := if hex == "-" then [] else (List.range (hex.length / 2)).map fun j => hexVal (hex.toList.getD (2*j) '0') * 16 + hexVal (hex.toList.getD (2*j+1) '0')
